@@ -197,6 +197,10 @@ class RemoveImportsTransformer(CSTTransformer):
 
         if not names_to_keep:
             return RemoveFromParent()
+        elif len(names_to_keep) == len(updated_node.names):
+            # Nothing is removed from this statement: leave it exactly as it
+            # was written (layout, trailing commas, comments after names).
+            return updated_node
         else:
             return updated_node.with_changes(names=names_to_keep)
 
@@ -226,5 +230,9 @@ class RemoveImportsTransformer(CSTTransformer):
 
         if not names_to_keep:
             return RemoveFromParent()
+        elif len(names_to_keep) == len(updated_node.names):
+            # Nothing is removed from this statement: leave it exactly as it
+            # was written (layout, trailing commas, comments after names).
+            return updated_node
         else:
             return updated_node.with_changes(names=names_to_keep)
